@@ -89,10 +89,17 @@ fn g_commit(s: CommitStaging) -> Result<()> {
     Ok(())
 }
 fn g_discard(s: CommitStaging) -> Result<()> { core::mem::forget(s); ev(E_DISCARD, 0); Ok(()) }
+/// a placeholder log handle whose (private) file field carries the inode it was opened on
+fn tagged_wal(inode: i32) -> EmbeddedWal {
+    let mut w: EmbeddedWal = unsafe { core::mem::zeroed() };
+    let base = &w as *const EmbeddedWal as usize;
+    let off = w.file() as *const File as usize - base;
+    unsafe { core::ptr::write((&mut w as *mut EmbeddedWal as *mut u8).add(off) as *mut i32, inode); }
+    w
+}
 fn g_wal_open(file: &File, header: &crate::types::Header) -> Result<EmbeddedWal> {
     ev(E_WALOPEN, file.as_raw_fd());
-    // a handle tagged (through its never-used region_offset slot) is not needed: zeroed is enough
-    Ok(unsafe { core::mem::zeroed() })
+    Ok(tagged_wal(file.as_raw_fd()))
 }
 fn g_open<P: AsRef<Path>>(_o: &OpenOptions, _p: P) -> std::io::Result<File> {
     let ino = unsafe { PATH_INODE };
@@ -100,6 +107,18 @@ fn g_open<P: AsRef<Path>>(_o: &OpenOptions, _p: P) -> std::io::Result<File> {
     Ok(unsafe { File::from_raw_fd(ino) })
 }
 fn g_lock_with_retry(file: &File, _mode: crate::lock::LockMode) -> Result<()> { ev(E_LOCK, file.as_raw_fd()); Ok(()) }
+// Toc::clone as a shallow copy (frame count and scalar frame fields): the harness only compares
+// the frame table and scalars across the rollback, and the real deep clone of every manifest is
+// what made this harness take 7+ minutes
+fn g_toc_clone(t: &crate::types::Toc) -> crate::types::Toc {
+    let mut c = crate::memvid::lifecycle::empty_toc();
+    let n = t.frames.len();
+    unrolled_4!(n, i => { c.frames.push(stub_frame_clone(&t.frames[i])); });
+    c.toc_version = t.toc_version;
+    c.ticket_ref.seq_no = t.ticket_ref.seq_no;
+    c.toc_checksum = t.toc_checksum;
+    c
+}
 fn g_unlock(f: &File) -> std::io::Result<()> { ev(E_UNLOCK, f.as_raw_fd()); Ok(()) }
 
 static mut OP_FAILS: bool = false;
@@ -119,6 +138,8 @@ kani::stub_set!(staging_stubs,
     stub(std::fs::OpenOptions::open, crate::memvid::mutation::verif_mutation::g_open),
     stub(crate::lock::FileLock::lock_with_retry, crate::memvid::mutation::verif_mutation::g_lock_with_retry),
     stub(std::fs::File::unlock, crate::memvid::mutation::verif_mutation::g_unlock),
+    stub(<crate::types::Toc as core::clone::Clone>::clone, crate::memvid::mutation::verif_mutation::g_toc_clone),
+    stub(<crate::types::Frame as core::clone::Clone>::clone, crate::verif_env::stub_frame_clone),
     stub(alloc::fmt::format, crate::verif_env::stub_format),
 );
 
@@ -129,6 +150,7 @@ verif_proof! { [C02 C03 C17 C19]
         let mut toc = crate::memvid::lifecycle::empty_toc();
         let mut mv = mk_memvid(toc, mk_header(65536));
         leak(core::mem::replace(&mut mv.file, unsafe { File::from_raw_fd(INODE_ORIG) }));
+        leak(core::mem::replace(&mut mv.wal, tagged_wal(INODE_ORIG)));
         mv.lock = {
             let f = unsafe { File::from_raw_fd(INODE_ORIG) };
             let l = crate::lock::FileLock::acquire_with_mode(&f, crate::lock::LockMode::Exclusive);
@@ -178,6 +200,7 @@ verif_proof! { [C02 C03 C17 C19]
                 // the handle now refers to the file at the path
                 assert!(mv.file.as_raw_fd() == unsafe { PATH_INODE }, "[C02] after commit the handle does not refer to the file at the path");
                 assert!(mv.generation == new_gen && mv.data_end == new_end && mv.toc.frames.len() == frames0 + 1, "[C02] successful commit lost the committed in-memory state");
+                assert!(mv.wal.file().as_raw_fd() == unsafe { PATH_INODE }, "[C02] after commit the log handle is not open on the file at the path: later puts would be written elsewhere");
                 // C17: the writer lock must be held on the inode the path names now
                 let lock_handle = mv.lock.clone_handle();
                 match &lock_handle {
@@ -195,6 +218,7 @@ verif_proof! { [C02 C03 C17 C19]
                         "[C02] failed commit left modified in-memory state (header/TOC/data_end/generation not rolled back)");
                 assert!(mv.file.as_raw_fd() == INODE_ORIG, "[C02] failed commit left the handle pointing at the discarded staging file");
                 assert!(unsafe { PATH_INODE } == INODE_ORIG, "[C02] failed commit replaced the file at the path");
+                assert!(mv.wal.file().as_raw_fd() == INODE_ORIG, "[C02] failed commit left the log handle open on the discarded staging file: later acknowledged puts are written to an unlinked file and lost");
                 if unsafe { OP_FAILS } {
                     assert!(i_commit == usize::MAX, "[C02] staging file renamed into place although the commit body failed");
                 }
@@ -537,59 +561,53 @@ kani::stub_set!(footer_stubs,
     stub(crate::memvid::lifecycle::prepare_toc_bytes, crate::memvid::mutation::verif_mutation::g_prepare_toc),
     stub(alloc::fmt::format, crate::verif_env::stub_format),
 );
+/// Geometry (footer offset, WAL size, previous file length) is concrete per instance: writes at a
+/// symbolic position touch every cell of the in-memory disk and the query times out.  TOC bytes,
+/// generation and the previous file contents beyond the footer are symbolic.
+fn rewrite_footer(fo: u64, wal_size: u64, old_len: u64) {
+    let toc = crate::memvid::lifecycle::empty_toc();
+    let mut header = mk_header(wal_size);
+    header.wal_offset = 16;
+    header.footer_offset = fo;
+    let mut mv = mk_memvid(toc, header);
+    leak(core::mem::replace(&mut mv.file, open_zero_disk(old_len)));
+    mv.generation = kani::any();
+    let blob: [u8; 5] = kani::any();
+    unsafe { TOCBLOB = blob; EV_N = 0; }
+    let r = mv.rewrite_toc_footer();
+    assert!(r.is_ok(), "[C02] rewrite_toc_footer failed although no I/O failed");
+    unrolled_4!(5usize, k => {
+        assert!(disk_get(&mut mv.file, fo + k as u64) == blob[k], "[C02] TOC bytes are not where the header's footer_offset points");
+    });
+    assert!(disk_get(&mut mv.file, fo + 4) == blob[4], "[C02] TOC bytes are not where the header's footer_offset points");
+    let mut fbytes = [0u8; crate::footer::FOOTER_SIZE];
+    unrolled_128!(crate::footer::FOOTER_SIZE, k => { fbytes[k] = disk_get(&mut mv.file, fo + 5 + k as u64); });
+    match CommitFooter::decode(&fbytes) {
+        Some(f) => {
+            assert!(f.toc_len == 5, "[C02] commit footer records a wrong TOC length");
+            assert!(f.generation == mv.generation, "[C02] commit footer records a wrong generation");
+            let want = oracle_hash(&blob);
+            assert!(f.toc_hash[0] == want[0] && f.toc_hash[1] == want[1] && f.toc_hash[2] == want[2] && f.toc_hash[3] == want[3], "[C20] commit footer hash is not the hash of the TOC bytes written");
+        }
+        None => assert!(false, "[C02] no decodable commit footer after the TOC"),
+    }
+    let want_len = core::cmp::max(fo + 5 + crate::footer::FOOTER_SIZE as u64, 16 + wal_size);
+    assert!(unsafe { DISK_LEN } as u64 == want_len, "[C02] file length after commit is not footer end (or WAL end)");
+    let n = unsafe { EV_N };
+    assert!(n >= 1 && n < EV_MAX && unsafe { EV_KIND[n - 1] } == EV_SYNC, "[C03] TOC/footer written but not fsynced before returning");
+    kani::cover!(true, "footer rewritten");
+    leak(r);
+    leak(mv);
+}
 verif_proof! { [C02 C03 C20]
     #[kani::unwind(5)]
     #[kani::use_stub_set(crate::memvid::mutation::verif_mutation::footer_stubs)]
-    fn c02_rewrite_toc_footer() {
-        let toc = crate::memvid::lifecycle::empty_toc();
-        let wal_size: u64 = kani::any();
-        kani::assume(wal_size >= 1 && wal_size <= 300);
-        let mut header = mk_header(wal_size);
-        header.wal_offset = 16;
-        let fo: u64 = kani::any();
-        kani::assume(fo >= 16 && fo <= 200);
-        header.footer_offset = fo;
-        let mut mv = mk_memvid(toc, header);
-        let old_len: u64 = kani::any();
-        kani::assume(old_len <= 400);
-        leak(core::mem::replace(&mut mv.file, open_zero_disk(old_len)));
-        mv.generation = kani::any();
-        let blob: [u8; 5] = kani::any();
-        unsafe { TOCBLOB = blob; EV_N = 0; }
-        let r = mv.rewrite_toc_footer();
-        assert!(r.is_ok(), "[C02] rewrite_toc_footer failed although no I/O failed");
-        // TOC bytes at footer_offset, footer right after
-        let mut k = 0;
-        while k < 5 {
-            assert!(disk_get(&mut mv.file, fo + k as u64) == blob[k], "[C02] TOC bytes are not where the header's footer_offset points");
-            k += 1;
-        }
-        let mut fbytes = [0u8; crate::footer::FOOTER_SIZE];
-        let mut k = 0;
-        while k < crate::footer::FOOTER_SIZE {
-            fbytes[k] = disk_get(&mut mv.file, fo + 5 + k as u64);
-            k += 1;
-        }
-        match CommitFooter::decode(&fbytes) {
-            Some(f) => {
-                assert!(f.toc_len == 5, "[C02] commit footer records a wrong TOC length");
-                assert!(f.generation == mv.generation, "[C02] commit footer records a wrong generation");
-                let want = oracle_hash(&blob);
-                assert!(f.toc_hash[0] == want[0] && f.toc_hash[1] == want[1] && f.toc_hash[2] == want[2] && f.toc_hash[3] == want[3], "[C20] commit footer hash is not the hash of the TOC bytes written");
-            }
-            None => assert!(false, "[C02] no decodable commit footer after the TOC"),
-        }
-        // file length: exactly up to the footer, never cutting into the WAL region
-        let want_len = core::cmp::max(fo + 5 + crate::footer::FOOTER_SIZE as u64, 16 + wal_size);
-        assert!(unsafe { DISK_LEN } as u64 == want_len, "[C02] file length after commit is not footer end (or WAL end)");
-        // C03: the last file mutation is followed by an fsync
-        let n = unsafe { EV_N };
-        assert!(n >= 1 && n < EV_MAX && unsafe { EV_KIND[n - 1] } == EV_SYNC, "[C03] TOC/footer written but not fsynced before returning");
-        kani::cover!(old_len > want_len, "file shrinks to the new footer");
-        kani::cover!(want_len == 16 + wal_size, "clamped to the WAL end");
-        leak(r);
-        leak(mv);
-    }
+    fn c02_rewrite_toc_footer_shrinks() { rewrite_footer(100, 50, 300); }
+}
+verif_proof! { [C02 C03 C20]
+    #[kani::unwind(5)]
+    #[kani::use_stub_set(crate::memvid::mutation::verif_mutation::footer_stubs)]
+    fn c02_rewrite_toc_footer_clamped_to_wal() { rewrite_footer(20, 200, 40); }
 }
 
 // ===========================================================================
@@ -605,6 +623,9 @@ verif_proof! { [C02 C03 C20]
 static mut W_SEQ0: u64 = 0; // sequence of the last record that was already applied
 static mut W_N: u64 = 0; // pending records: W_SEQ0+1 ..= W_SEQ0+W_N
 static mut D_FRAMES: usize = 0; // durable TOC: number of frames
+static mut APPLIED_MEM: u64 = 0; // records applied to the in-memory TOC
+static mut D_APPLIED: u64 = 0; // records reflected in the durable TOC
+static mut TOMBSTONES_ONLY: bool = false; // the pending records are deletes (no frame inserted)
 static mut D_SEQ: u64 = 0; // durable header: wal_sequence
 static mut FRAMES0: usize = 0;
 static mut DUP_POSSIBLE: bool = false; // some crash point replays a record twice
@@ -613,8 +634,8 @@ static mut R_STEP_FAIL: u8 = 0; // which ghost fails (0 = none)
 
 fn durable_check() {
     unsafe {
-        // records the durable TOC already contains
-        let in_toc = (D_FRAMES - FRAMES0) as u64;
+        // records the durable TOC already reflects
+        let in_toc = D_APPLIED;
         // records a later open would replay: those above D_SEQ
         let replay_from = D_SEQ;
         let first_replayed = replay_from + 1;
@@ -649,9 +670,15 @@ fn r_apply(mv: &mut Memvid, records: Vec<WalRecord>) -> Result<IngestionDelta> {
     let mut delta = IngestionDelta::default();
     let mut i = 0;
     while i < records.len() {
-        let id = mv.toc.frames.len() as u64;
-        mv.toc.frames.push(mk_frame(id, 0, FrameStatus::Active));
-        delta.inserted_frames.push(id);
+        if unsafe { TOMBSTONES_ONLY } {
+            mv.toc.frames[0].status = FrameStatus::Deleted;
+            delta.mutated_frames = true;
+        } else {
+            let id = mv.toc.frames.len() as u64;
+            mv.toc.frames.push(mk_frame(id, 0, FrameStatus::Active));
+            delta.inserted_frames.push(id);
+        }
+        unsafe { APPLIED_MEM += 1; }
         i += 1;
     }
     leak(records);
@@ -664,6 +691,7 @@ fn r_rebuild(mv: &mut Memvid, _e: &[(FrameId, Vec<f32>)], _f: &[FrameId]) -> Res
     // as the real rebuild_indexes ends: rewrite_toc_footer, then persist_header
     unsafe {
         D_FRAMES = mv.toc.frames.len();
+        D_APPLIED = APPLIED_MEM;
         durable_check();
         D_SEQ = mv.header.wal_sequence;
         durable_check();
@@ -712,6 +740,9 @@ fn recover_setup(n_pending: u64, frames0: usize, seq0: u64) -> Memvid {
         W_N = n_pending;
         FRAMES0 = frames0;
         D_FRAMES = frames0;
+        APPLIED_MEM = 0;
+        D_APPLIED = 0;
+        TOMBSTONES_ONLY = false;
         D_SEQ = seq0;
         DUP_POSSIBLE = false;
         LOSS_POSSIBLE = false;
@@ -749,7 +780,7 @@ fn recover_uninterrupted(n: u64) {
         assert!(mv.toc.frames.len() == f0 + n as usize, "[C04] recovery did not apply every pending record exactly once");
         assert!(mv.header.wal_sequence == seq0 + n, "[C04] recovery did not checkpoint the replayed records");
         if n > 0 {
-            assert!(unsafe { D_FRAMES } == f0 + n as usize && unsafe { D_SEQ } == seq0 + n, "[C04] recovered state was not made durable (TOC and header)");
+            assert!(unsafe { D_APPLIED } == n && unsafe { D_SEQ } == seq0 + n, "[C04] recovered state was not made durable (TOC and header)");
             assert!(mv.pending_frame_inserts == 0, "[C06] pending insert counter not reset after replay: next_frame_id would skip ids");
         }
         // opening a recovered file again changes no frame
@@ -759,6 +790,27 @@ fn recover_uninterrupted(n: u64) {
         kani::cover!(mv.toc.frames.len() == f0 + n as usize, "recovery ran");
         leak(r);
         leak(r2);
+        leak(mv);
+    }
+}
+
+// recovery of a log that holds only deletes: the tombstone must reach the durable TOC before
+// (or together with) the checkpoint that puts it behind the replay horizon
+verif_proof! { [C04 C08]
+    #[kani::unwind(5)]
+    #[kani::use_stub_set(crate::memvid::mutation::verif_mutation::recover_stubs)]
+    fn c04_recover_tombstone_only() {
+        let seq0: u64 = kani::any();
+        kani::assume(seq0 < 1 << 40);
+        let mut mv = recover_setup(1, 1, seq0);
+        unsafe { R_STEP_FAIL = 0; TOMBSTONES_ONLY = true; }
+        let r = mv.recover_wal();
+        assert!(r.is_ok(), "[C04] recovery failed although nothing failed");
+        assert!(mv.toc.frames[0].status == FrameStatus::Deleted, "[C04] replayed delete not applied");
+        assert!(mv.header.wal_sequence == seq0 + 1, "[C04] recovery did not checkpoint the replayed delete");
+        assert!(!unsafe { LOSS_POSSIBLE } && unsafe { D_APPLIED } == 1, "[C04] the checkpoint moved past a replayed delete that never reached the durable TOC: the next open shows the frame active again");
+        kani::cover!(true, "tombstone replayed");
+        leak(r);
         leak(mv);
     }
 }
